@@ -49,8 +49,14 @@ pub fn prove_body(
                         }
                     }
 
-                    // Last resort: enumerate candidates
-                    if matches.is_empty() && ctx.is_derived(&atom.relation) {
+                    // Last resort: enumerate candidates. Only when the relation was not
+                    // materialized: materialized data is complete, so "no match" is final,
+                    // and re-deriving a false sub-goal of a recursive relation costs time
+                    // exponential in max_depth on cyclic data.
+                    let materialized = ctx
+                        .derived_data
+                        .is_some_and(|d| d.contains_key(&atom.relation));
+                    if matches.is_empty() && ctx.is_derived(&atom.relation) && !materialized {
                         matches = enumerate_derived_candidates(
                             &atom.relation,
                             &bound,
